@@ -90,6 +90,7 @@ type RunOpts struct {
 	Build   string        // VBUILD id
 	Timeout time.Duration // wall-clock cap (default 120s)
 	Stdin   string
+	AfterStart func(pid int) // called in a goroutine once the process runs
 }
 
 func cpuOf(pid int) (int64, bool) {
@@ -172,6 +173,9 @@ func (m *Machine) Run(args []string, o RunOpts) *Result {
 		return res
 	}
 	pid := cmd.Process.Pid
+	if o.AfterStart != nil {
+		go o.AfterStart(pid)
+	}
 	done := make(chan error, 1)
 	go func() { done <- cmd.Wait() }()
 	var err error
